@@ -421,10 +421,12 @@ class NamedTupleAdapter(GenericCallAdapter):
         return (
             [],
             {
-                field: Argument(value=getattr(value, field))
+                field: Argument(
+                    value=getattr(value, field),
+                    is_default=field in value._field_defaults
+                    and getattr(value, field) == value._field_defaults[field],
+                )
                 for field in value._fields
-                if field not in value._field_defaults
-                or getattr(value, field) != value._field_defaults[field]
             },
         )
 
